@@ -11,6 +11,10 @@ a plain dictionary model of the DATA (key -> the file column / in-memory series 
 clear / update / copy) against every series returned, iterated or cached; a second family of histories on one file of each of the
 ten readable formats with multi-series requests (names, full keys, register indices) in an order different from the order on
 file, through every container API, on fresh / partly cached databases.
+Isolation: after every history of the first family all series objects held by the two databases are processed in place one by
+one; a series keeps its data until its own turn and its processed data afterwards (a deep copy / deep update / read shares no
+array with any other series; identity decides what "the same series" is, so shallow copies are one series).
+Third family: sessions on one path whose file is written anew between loads (all ten formats, three databases).
 Binding (stream `db.bind`): every history of both families is also run through the Lean content-binding model
 `Qats.Binding.step` (theorems `binding_*`, `getm_returns_registered`, `rename_keeps_record` of Props/C08.lean), which predicts per
 operation, for every returned series and for every key of both databases, the registered record (file, record number, name on
@@ -38,7 +42,14 @@ RULE = ("seeded histories of 3-14 operations over a weighted alphabet favouring 
         "clear, rename (all formats, mostly of series not read yet; corner histories: rename then read, two series exchanging their "
         "names), store on/off; every history of both families is also run through the Lean "
         "binding model (db.bind: per operation the registered record and the root origin of every returned / cached series, and of "
-        "every series read after the history); non-trivial = history with at least one successful mutation and "
+        "every series read after the history); after every history of the first family every distinct series object the two "
+        "databases hold (and series handed out by store-off retrievals) is processed in place, one after the other (array arithmetic, "
+        "single samples, set_dtg_ref, modify): all others keep their data (deep copy / deep update / reads own their data; the second "
+        "family does the same with the database a deep copy / update filled); third family: per format (all ten) sessions on ONE path "
+        "that holds 3 successive versions of the file (other values / other names, number of series, length; the same version "
+        "written again; an earlier version again) with 3 databases: load / fromfile / clear + load / rejected second load, lazy or "
+        "read, retrievals store on/off, in-place processing of cached series: listing and data of every database describe the file "
+        "as it was when loaded / read; non-trivial = history with at least one successful mutation and "
         "one rejected operation or cache interaction, or (second family) a multi-series request out of file order; distinct by history")
 
 # (relative path, names in file order); the extension selects the format.  All are index-addressed formats (the registry model's
@@ -447,7 +458,7 @@ def execute(ops, paths, chk=None, inp=None):
                 os.chdir(workdirs(paths, home)[op[1]])
                 out = "done"
             elif k == "add":
-                ts = TimeSeries(op[2], t, t * 2 + 1000.0 * nadd)
+                ts = TimeSeries(op[2], t.copy(), t * 2 + 1000.0 * nadd)      # arrays of its own (nothing shared through the caller)
                 keep.append(ts)
                 db(op[1]).add(ts)
                 out = "done"
@@ -615,6 +626,99 @@ def final_checks(state, chk, inp, bind_last=None):
                 chk.fail(T_DATA, dict(inp, db=w, key=k, how="iteration after the history"), describe(prov),
                          dict(t=list(map(float, ts.t)), x=list(map(float, ts.x))), clause="data")
                 break
+    # in-place processing of every series held (and of series handed out by store-off retrievals) leaves all others as they are
+    isolation_checks([("A", A), ("B", B)], keep, chk, inp,
+                     lambda w, k: describe(exp[w][k]) if exp[w].get(k) is not None else None, offset=len(A.register_keys))
+
+
+# ----------------------------------------------------------------------------------------------------------
+# in-place processing: a series belongs to the databases that hold that very object, and to nobody else
+# ----------------------------------------------------------------------------------------------------------
+T_ISOLATED = (T_DATA + " (also after OTHER series were processed in place: a deep copy / deep update / read from file gives a "
+              "database data of its own; only a shallow copy / update shares the very same object)")
+INPLACE = ["xscale", "tshift", "x0", "dtg2", "modify"]
+
+
+def inplace(ts, kind):
+    """what the owner of a series may do with it: process it in place (array arithmetic, single samples, the documented
+    `set_dtg_ref` and `modify`); every kind changes at least one of the arrays the series holds at the time of the call"""
+    from datetime import datetime
+    if kind == "xscale":
+        ts.x *= 2.0
+    elif kind == "tshift":
+        ts.t[:] = ts.t + 100.0
+    elif kind == "x0":
+        ts.x[0] = -999.0
+        ts.t[-1] += 0.5
+    elif kind == "dtg2":
+        ts.set_dtg_ref(datetime(2020, 1, 1, 12, 0, 0))
+        ts.set_dtg_ref(datetime(2020, 1, 1, 11, 0, 0))          # corrected by one hour: t += 3600
+        ts.x += 1.0
+    elif kind == "modify":
+        ts.x *= -1.0
+        ts.modify(twin=(float(ts.t[0]), float(ts.t[-1])))
+        ts.x[-1] = 555.0
+    else:
+        raise ValueError(kind)
+
+
+def holds(ts, snap):
+    """the arrays of the series are exactly (bit for bit: nothing was computed) what they were when `snap` was taken"""
+    return ts.t.shape == snap[0].shape and ts.x.shape == snap[1].shape and bool(np.array_equal(ts.t, snap[0])) and bool(np.array_equal(ts.x, snap[1]))
+
+
+def isolation_checks(dbs, loose, chk, inp, describe_key=None, offset=0):
+    """`dbs` = [(label, TsDB)]: every distinct series object the databases hold (and up to 6 series in `loose` that earlier
+    retrievals handed out and no database holds) is processed in place, one after the other.  Clause: a series holds its data
+    until it is processed itself (checked right before its turn), and holds its processed data afterwards (checked at the end).
+    Objects are distinguished by identity, so a shallow copy (the same object under a key of both databases) is one series."""
+    objs, seen = [], {}
+    for w, db in dbs:
+        for k in db.register_keys:
+            v = db.register.get(k)
+            if v is None:
+                continue
+            if id(v) in seen:
+                seen[id(v)][1].append((w, k))
+            else:
+                seen[id(v)] = (v, [(w, k)])
+                objs.append(seen[id(v)])
+    if not objs:
+        return
+    free, fseen = [], set()
+    for v in loose:
+        if id(v) not in seen and id(v) not in fseen and hasattr(v, "modify"):
+            fseen.add(id(v))
+            free.append((v, []))
+    order = free[-6:] + objs
+    init = {id(o): (o.t.copy(), o.x.copy()) for o, _ in objs}
+    post, done = {}, []
+
+    def bad(o, where, snap, when):
+        culprits = [dict(held_as=pw or "returned by an earlier retrieval, held by no database", processing=kd) for p, pw, kd in done
+                    if p is not o and (np.shares_memory(p.t, o.t) or np.shares_memory(p.x, o.x) or np.shares_memory(p.t, o.x))]
+        w, k = where[0]
+        chk.fail(T_ISOLATED, dict(inp, inplace=dict(series=[list(x) for x in where], when=when,
+                                                    processed_before=[[list(x) for x in pw] or "loose" for _, pw, _ in done])),
+                 dict(t=list(map(float, snap[0])), x=list(map(float, snap[1])), what=describe_key(w, k) if describe_key else None),
+                 dict(t=list(map(float, o.t)), x=list(map(float, o.x)), arrays_shared_with=culprits[:3]), clause="isolation")
+
+    for n, (o, where) in enumerate(order):
+        chk.count("oracle:isolation")
+        if where and not holds(o, init[id(o)]):
+            return bad(o, where, init[id(o)], "before the series itself was processed")
+        kind = INPLACE[(n + offset) % len(INPLACE)]
+        try:
+            inplace(o, kind)
+        except Exception:
+            kind = "xscale"
+            o.x *= 2.0
+        done.append((o, where, kind))
+        if where:
+            post[id(o)] = (o.t.copy(), o.x.copy())
+    for o, where in objs:
+        if not holds(o, post[id(o)]):
+            return bad(o, where, post[id(o)], "after all series were processed (this one: %s)" % next(kd for p, _, kd in done if p is o))
 
 
 def snapshot(db):
@@ -842,6 +946,14 @@ def fmt_execute(spec, path, ops, chk, inp, bind=None):
                 bnew = observe(new, False)
                 if any(v is None for v in new.register.values()):
                     bad(T_DATA, n, "series", "None in the register of the new database", "fmt-data")
+                elif op[2]:
+                    # deep: the new database owns its series; processing them in place is nothing the source database sees
+                    for i, v in enumerate(new.register.values()):
+                        try:
+                            inplace(v, INPLACE[(n + i) % len(INPLACE)])
+                        except Exception:
+                            v.x *= 2.0
+                    check_db(n, db, "cached in the source database after the series of its deep %s (names=%s) were processed in place" % (kind, op[1]))
             elif kind == "iter":
                 ks, items, probs = iteration(db)
                 chk.count("oracle:iteration")
@@ -897,6 +1009,202 @@ def fmt_execute(spec, path, ops, chk, inp, bind=None):
                 chk.disagree("db.bind", dict(kind="fmt", spec=spec, ops=ops, key=k,
                                              what="origin of the data read by get(name=key, store=False) after the history"),
                              pred[k], fmt_identify(spec, path, ts.t, ts.x))
+
+
+# ----------------------------------------------------------------------------------------------------------
+# third family: one path, several successive versions of the file, several databases in one session
+# ----------------------------------------------------------------------------------------------------------
+T_NOW = ("the listing, size and data of a database describe the file as it was when it was loaded / read (a file written anew at "
+         "the same path is a new file: nothing of an earlier load or of another database is left behind)")
+NDB = 3
+
+
+def gen_rewrite_history(rng, fmt, fi):
+    """-> (versions, ops): 3 contents for ONE path (other values / other names, number of series and length) and a session:
+    ["write", v] puts version v on the path (also the version that is there already, also an earlier one again);
+    ["load", d, read] / ["fromfile", d, read] / ["clear", d] / ["get", d, api, store, reverse] / ["touch", d] act on database d."""
+    from . import c01
+    v0 = c01.gen_spec(rng, fi, fmt, k=rng.choice([2, 3, 4]), n=rng.randint(3, 5))
+    modes = rng.choice([["values", "new"], ["new", "values"], ["new", "new"]])
+    v1 = c01.rewritten(rng, v0, fi + 1, modes[0])
+    v2 = c01.rewritten(rng, v1, fi + 2, modes[1])
+    ops = []
+    for v in [0, 1, rng.choice([0, 1, 2]), 2][:rng.choice([3, 4, 4])]:
+        ops.append(["write", v])
+        loaded = False
+        for _ in range(rng.randint(2, 4)):
+            d = rng.randrange(NDB)
+            r = rng.random()
+            if r < 0.3 or not loaded:
+                how = rng.random()
+                if how < 0.4:
+                    ops.append(["fromfile", d, rng.random() < 0.3])
+                elif how < 0.8:
+                    ops += [["clear", d], ["load", d, rng.random() < 0.3]]
+                else:
+                    ops.append(["load", d, rng.random() < 0.3])     # rejected if the database holds a key of this file already
+                loaded = True
+            elif r < 0.75:
+                ops.append(["get", d, rng.choice(["getm", "getd", "iter", "get1"]), rng.random() < 0.6, rng.random() < 0.5])
+            else:
+                ops.append(["touch", d])
+        ops.append(["get", rng.randrange(NDB), "getm", rng.random() < 0.5, False])
+    return [v0, v1, v2], ops
+
+
+def rewrite_execute(versions, ops, root, chk, inp):
+    """dictionary model per database: key -> [version registered from, data held (None = not read yet)]"""
+    from qats import TsDB
+    from . import c01
+    fmt = versions[0]["fmt"]
+    tol = c01.tol_of(fmt)
+    sep = os.path.sep
+    path = c01.file_path(root, versions[0])
+    dbs = [TsDB() for _ in range(NDB)]
+    model = [dict() for _ in range(NDB)]
+    cur = None                      # version on the path now
+    reported = set()
+
+    def bad(text, n, expected, observed, clause, **kw):
+        if clause in reported:
+            return
+        reported.add(clause)
+        chk.fail(text, dict(inp, upto=n + 1, op=ops[min(n, len(ops) - 1)], **kw), expected, observed, clause=clause, fmt=fmt)
+
+    def on_file(v, name):
+        sp = versions[v]
+        _, t, x = c01.stored(sp, sp["names"].index(name))
+        if fmt == "asc":
+            t, x = t[1:], x[1:]     # known finding F15 (C01)
+        return np.array(t, dtype=float), np.array(x, dtype=float)
+
+    def readable(d):
+        """keys whose content the model knows: read already, or registered from the version that is on the path now"""
+        return [k for k in dbs[d].register_keys if k in model[d] and (model[d][k][1] is not None or model[d][k][0] == cur)]
+
+    def expected(d, k):
+        v, held = model[d][k]
+        return held if held is not None else on_file(v, k[len(path) + 1:])
+
+    def check_series(n, d, k, t, x, how):
+        chk.count("oracle:data")
+        wt, wx = expected(d, k)
+        if not (near(t, wt, tol) and near(x, wx, tol)):
+            bad(T_DATA + "; " + T_NOW, n, dict(version=model[d][k][0], t=list(map(float, wt)), x=list(map(float, wx))),
+                dict(t=list(map(float, t)), x=list(map(float, x))), "rw-data", db=d, key=k[len(path) + 1:], how=how)
+
+    def check_all(n, how):
+        for d, db in enumerate(dbs):
+            pr = coherent(db)
+            if pr:
+                bad(T_COHERENT, n, "coherent", pr, "coherent", db=d)
+            if sorted(db.register_keys) != sorted(model[d]):
+                bad(T_COHERENT + "; " + T_NOW, n, sorted(k[len(path) + 1:] for k in model[d]),
+                    [k[len(path) + 1:] for k in db.register_keys], "rw-keys", db=d, how=how)
+                continue
+            for k, v in list(db.register.items()):
+                if v is None:
+                    continue
+                if model[d][k][1] is None:
+                    bad(T_STORE_FALSE, n, "not cached", k[len(path) + 1:], "store-false", db=d)
+                else:
+                    check_series(n, d, k, v.t, v.x, "cached in database %d (%s)" % (d, how))
+
+    for n, op in enumerate(ops):
+        kind = op[0]
+        if kind == "write":
+            assert c01.file_path(root, versions[op[1]]) == path
+            c01.write_file(root, versions[op[1]])
+            cur = op[1]
+            continue
+        d = op[1]
+        db = dbs[d]
+        if kind in ("load", "fromfile"):
+            keys = [path + sep + nm for nm in versions[cur]["names"]]
+            clash = kind == "load" and any(k in model[d] for k in keys)
+            snap = snapshot(db)
+            try:
+                if kind == "load":
+                    db.load(path, read=op[2])
+                else:
+                    db = dbs[d] = TsDB.fromfile(path, read=op[2])
+                    model[d] = dict()
+            except Exception as e:
+                if not clash:
+                    bad("a file is rejected only for a key the database holds already; " + T_NOW, n, "loaded: " + str(versions[cur]["names"]),
+                        err_enum(e) + ": " + str(e)[:100], "rw-load", db=d, holds=[k[len(path) + 1:] for k in model[d]])
+                elif snapshot(db) != snap:
+                    bad("a rejected operation leaves the database exactly as it was", n, str(snap)[:300], str(snapshot(db))[:300],
+                        "rejected-unchanged", db=d)
+                chk.dist("rw:load rejected")
+            else:
+                if clash:
+                    bad("a file with a key the database holds already is rejected", n, "err key", "done", "rw-load", db=d)
+                for k in keys:
+                    model[d][k] = [cur, on_file(cur, k[len(path) + 1:]) if op[2] else None]
+        elif kind == "clear":
+            db.clear(display=False)
+            model[d] = dict()
+        elif kind == "get":
+            api, store, rev = op[2], op[3], op[4]
+            ks = readable(d)
+            if not ks or (api == "iter" and len(ks) != len(db.register_keys)):
+                continue
+            if rev:
+                ks = ks[::-1]
+            cached = set(k for k, v in db.register.items() if v is not None)
+            try:
+                if api == "iter":
+                    store = True
+                    _, items, probs = iteration(db)
+                    if probs:
+                        bad(T_COHERENT, n, "iteration = listing order", probs, "iteration", db=d)
+                    got = list(zip(db.register_keys, items))
+                elif api == "get1":
+                    ks = ks[:1]
+                    got = [(ks[0], db.get(name=ks[0], store=store))]
+                else:
+                    got = list(getattr(db, api)(names=list(ks), store=store, fullkey=True).items())
+            except Exception as e:
+                bad("every listed series is retrievable; " + T_NOW, n, "series", err_enum(e) + ": " + str(e)[:100], "retrievable", db=d,
+                    keys=[k[len(path) + 1:] for k in ks])
+                continue
+            if sorted(k for k, _ in got) != sorted(ks):
+                bad(T_DATA + " (a request by keys returns these keys)", n, [k[len(path) + 1:] for k in ks], [str(k)[len(path) + 1:] for k, _ in got],
+                    "rw-keys", db=d)
+                continue
+            for k, ts in got:
+                check_series(n, d, k, ts.t, ts.x, "%s(store=%s) on database %d" % (api, store, d))
+                if store:
+                    if db.register.get(k) is not ts:
+                        bad(T_STORE_TRUE + " (a series returned by a store-on retrieval is the cached one)", n, "cached", k, "store-true", db=d)
+                    if model[d][k][1] is None:
+                        model[d][k][1] = on_file(cur, k[len(path) + 1:])
+            if not store and set(k for k, v in db.register.items() if v is not None) != cached:
+                bad(T_STORE_FALSE, n, sorted(cached), sorted(k for k, v in db.register.items() if v is not None), "store-false", db=d)
+        elif kind == "touch":
+            # the owner processes the series its database holds, in place; the model holds the processed data
+            for i, k in enumerate(list(db.register_keys)):
+                v = db.register.get(k)
+                if v is None or k not in model[d] or model[d][k][1] is None:
+                    continue
+                try:
+                    inplace(v, INPLACE[(n + i) % len(INPLACE)])
+                except Exception:
+                    v.x *= 2.0
+                model[d][k][1] = (v.t.copy(), v.x.copy())
+        check_all(n, "after operation %d: %s" % (n + 1, op))
+    # after the session: every series whose content the model knows is retrievable and holds it
+    for d, db in enumerate(dbs):
+        for k in readable(d):
+            chk.count("retrieve")
+            try:
+                ts = db.get(name=k, store=False)
+            except Exception as e:
+                bad("every listed series is retrievable; " + T_NOW, len(ops) - 1, "series", err_enum(e) + ": " + str(e)[:100], "retrievable", db=d,
+                    key=k[len(path) + 1:])
+                continue
+            check_series(len(ops) - 1, d, k, ts.t, ts.x, "get(name=key, store=False) on database %d after the session" % d)
 
 
 def rename_unread(spec, path, chk):
@@ -1037,6 +1345,27 @@ def run(chk):
                 chk.dist("fmt-op:" + op[0] + (":" + op[1] + ":" + op[2] if op[0] == "get" else ""))
             if out_of_file_order(spec, ops):
                 chk.nontriv((fmt, repr(ops)))
+        # ---- third family: files written anew at the same path between loads, several databases in one session ---------------------
+        for fi, fmt in enumerate(c01.FORMATS):
+            sessions = [([["write", 0], ["load", 0, False], ["get", 0, "getm", True, False], ["write", 1], ["fromfile", 1, False],
+                          ["get", 1, "getm", False, True], ["clear", 0], ["load", 0, False], ["get", 0, "iter", True, False],
+                          ["write", 2], ["load", 0, False], ["fromfile", 2, True], ["touch", 2], ["write", 2], ["fromfile", 1, False],
+                          ["get", 1, "getd", True, False], ["get", 0, "getm", True, False]], None)]
+            sessions += [(c["ops"], None) for c in core.load_corpus("C08") if c.get("kind") == "rewrite" and c.get("fmt") in ("*", fmt)]
+            for i, (ops, vs) in enumerate(sessions + [(None, None)] * (3 if chk.quick else 20)):
+                vs, gops = gen_rewrite_history(rng, fmt, 60 + 7 * fi + 3 * (i % 2))
+                ops = ops or gops
+                chk.count("rewrite-session")
+                chk.dist("rw-file:%s" % fmt)
+                for op in ops:
+                    chk.dist("rw-op:" + op[0])
+                try:
+                    rewrite_execute(vs, ops, os.path.join(fl.root, "rw%d" % i), chk, dict(kind="rewrite", versions=vs, ops=ops))
+                except Exception as e:
+                    chk.fail("the operations of a session on readable files complete", dict(kind="rewrite", versions=vs, ops=ops), "done",
+                             err_enum(e) + ": " + str(e)[:120], clause="rw-crash", fmt=fmt)
+                if sum(op[0] == "write" for op in ops) > 1:
+                    chk.nontriv((fmt, repr(ops)))
         # ---- every listed series is retrievable and holds its data after renaming a not-yet-read series (all addressing modes) -------
         for fmt in ("h5", "mat", "tdms", "ts", "csv"):
             spec = c01.gen_spec(rng, 7, fmt, k=2, n=4, variant=0)
@@ -1051,7 +1380,9 @@ def replay(rp):
     try:
         chk = core.Check("C08", "quick", 0)
         kind = inp.get("kind", "history")
-        if kind in ("fmt", "rename-unread"):
+        if kind == "rewrite":
+            rewrite_execute(inp["versions"], inp["ops"], os.path.join(fl.root, "rw"), chk, dict(kind="rewrite", versions=inp["versions"], ops=inp["ops"]))
+        elif kind in ("fmt", "rename-unread"):
             from . import c01
             path = c01.write_file(fl.root, inp["spec"])
             if kind == "fmt":
